@@ -321,8 +321,8 @@ def rule_7(ctx):
              'Z5': '=COUNT(V1:V5)', 'Z6': '=COUNTA(V1:V5)', 'Z7': '=MIN(V1:V5)+MAX(V1:V5)', 'Z8': '=AVERAGE(V1:V5)', 'Z9': '=COUNT(W1:W3)+COUNT(X1:X3)'}
     twant = {'Z1': 3, 'Z2': 2, 'Z3': 0, 'Z4': 8, 'Z5': 3, 'Z6': 5, 'Z7': 2, 'Z8': 1, 'Z9': 6}
     for oname, order in (('Z1 first', list(twant)), ('Z9 first', list(reversed(list(twant)))), ('the boolean cells first', ['Y1', 'Y2'] + list(twant)),
-                         ('the number cells first', ['W1', 'X1', 'X3', 'V1', 'V5'] + list(twant))):
-        wbt = W.Workbook(ctx, typed)
+                         ('the number cells first', ['W1', 'X1', 'X3', 'V1', 'V5'] + list(twant)), ('the workbook loaded from a file', list(twant))):
+        wbt = W.Workbook(ctx, typed) if oname != 'the workbook loaded from a file' else W.Workbook(ctx, sheets={'Sheet1': typed})
         for a in order:
             got = wbt.value('Sheet1!' + a)
             if a not in twant:
